@@ -158,7 +158,7 @@ CDivMod(op, l, r) ==
         ELSE IF ~QuotDecided(Q(l), Q(r)) THEN Pr("nondyadic")
         ELSE WithFl(Res("double", FALSE, QuotQ(Q(l), Q(r))),
                     IF ShCdivQ(Q(l), Q(r)) # QuotQ(Q(l), Q(r)) THEN {"cdiv_double_dev"} ELSE {}))   \* where Shadow.cdiv deviates (known)
-  ELSE IF r.v = 0 THEN Pr("c-div-zero")
+  ELSE IF r.v = 0 THEN Pr("c-div-zero")          \* (and MIN / -1, MIN % -1: "c-div-overflow"; MIN is outside the TLC domain)
   ELSE Res(Arith(l.t, r.t), FALSE, IF op = "cdiv" THEN TruncDiv(l.v, r.v) ELSE TruncRem(l.v, r.v))
 
 CastE(T, r) ==
@@ -333,8 +333,15 @@ Bind == AtStmt /\ Cur[1] = "bind" /\
         ELSE Go([m.env EXCEPT !["a"] = [k |-> Kind(P.types["a"]), v |-> c.a], !["b"] = [k |-> Kind(P.types["b"]), v |-> c.b]], Rest, {})
 Assign == AtStmt /\ Cur[1] = "set" /\
           LET r == Eval(P, m.env, Cur[3]) IN IF r.st # "ok" THEN Fail(r) ELSE Store(Cur[2], r)
-Declare == AtStmt /\ Cur[1] = "decl" /\          \* x = cython.declare(T, e): a cast to the type of x
-          LET r == Eval(P, m.env, <<"cast", P.types[Cur[2]], Cur[3]>>) IN IF r.st # "ok" THEN Fail(r) ELSE Store(Cur[2], r)
+\* x = cython.declare(T, e) is `cdef T x = e`: C assignment conversions only (widening to double, bint <-> int within
+\* {0, 1}); a double into an integer variable is rejected by the compiler although Shadow.declare would truncate it
+Declare == AtStmt /\ Cur[1] = "decl" /\
+          LET r == Eval(P, m.env, Cur[3])
+              T == P.types[Cur[2]] IN
+          IF r.st # "ok" THEN Fail(r)
+          ELSE IF r.k = "d" /\ Kind(T) # "d" THEN Stop(Out("pruned", <<>>, "kind-mismatch"), r.fl)
+          ELSE IF Kind(T) = "b" /\ r.k = "i" /\ r.v \notin {0, 1} THEN Stop(Out("pruned", <<>>, "assign-range"), r.fl)
+          ELSE LET cv == WithFl(CastE(T, r), r.fl) IN IF cv.st # "ok" THEN Fail(cv) ELSE Store(Cur[2], cv)
 Branch == AtStmt /\ Cur[1] = "if" /\
           LET r == Eval(P, m.env, Cur[2]) IN
           IF r.st # "ok" THEN Fail(r) ELSE Go(m.env, (IF Truth(r) THEN Cur[3] ELSE Cur[4]) \o Rest, r.fl)
